@@ -2251,6 +2251,10 @@ impl<'store> AnnotationStore {
                         self.remove(dataset)?;
                     }
                     for annotation in remove_annotations {
+                        if self.annotation(annotation).is_none() {
+                            //already removed along with an earlier annotation it referenced
+                            continue;
+                        }
                         self.remove(annotation)?;
                     }
                     for (set, key) in remove_keys {
